@@ -43,7 +43,7 @@ JOBS = [
 ] + [
   # uncontracted side: real dr_pi_dag_enum_edges (dr_dump.c) + real dr_calc_edges (gen_stat.c) on one concrete dumped DAG
   Job("c18.enum_edges.%s.bounded" % nm, "c18_dump.c", "h_enum_edges", kind="bounded",
-      replace_calls=["malloc:verif_malloc_1k", "exit:verif_exit"], cbmc=["--unwind", "16", "--unwinding-assertions", "--sat-solver", "cadical"], defines=["-DENUM_SCEN=%d" % sc],
+      replace_calls=["malloc:verif_malloc_pool", "exit:verif_exit"], cbmc=["--unwind", "16", "--unwinding-assertions", "--sat-solver", "cadical"], defines=["-DENUM_SCEN=%d" % sc],
       fuc=["dr_pi_dag_enum_edges", "dr_pi_dag_count_edges_uncollapsed", "dr_pi_dag_node_first", "dr_pi_dag_node_last", "dr_calc_edges"], timeout=100,
       note="bounded: one concrete dumped DAG of 14 nodes (child lists <= 4, every node kind), contraction state: %s; summaries of the created tasks and the resume kinds after the waits arbitrary" % what)
   for sc, nm, what in ((0, "materialised", "nothing contracted"), (1, "contracted_a", "section A (two creates) contracted"),
@@ -57,7 +57,9 @@ META = {
                "dr_accumulate_stats computed; the recurrence step of 'critical path <= work' (arithmetic lemma, any list length). "
                "Bounded (NOT counted as proved): dr_accumulate_stats computes the totals the property names from the children's summaries only, "
                "for child lists of length <= 4; dr_free_dag and dr_prune_nodes_norec write no summary, on one concrete 10-node DAG "
-               "(six budget / worker-set scenarios for prune).",
+               "(six budget / worker-set scenarios for prune); the edges by kind that dr_pi_dag_enum_edges (dr_dump.c) materialises plus the "
+               "summaries dr_calc_edges (gen_stat.c) adds for contracted nodes equal the root summary of the accumulate rules, on one concrete "
+               "dumped DAG of 14 nodes in four contraction states.",
  "level_note": "The step from (summary = function of the children's summaries) + (no contraction writes a summary) to 'root totals are independent "
                "of contraction' is an induction on the task tree done on paper. Not decided: which worker ran what, clock behaviour, the text of the "
                ".stat file, the gen_stat.c cross-check work == root t_1, hooks. Trusted: cbmc 6.11 (dfcc), gcc -E.",
@@ -73,6 +75,8 @@ META = {
    "BOUND (kind=bounded): dr_accumulate_stats is checked for child lists of length <= 4 (ACC_N), each child possibly a create interval with its created task; well-nested lists only: section ::= (create|section|other)* wait, task ::= (section|other)* end",
    "BOUND: per-summary clocks < 2^58 and node/edge counts < 2^40, PAPI counters in [0, 2^58): the recorder's 64-bit sums do not wrap (dr_clock_t is unsigned, wrap-around would be silent)",
    "BOUND (kind=bounded): dr_free_dag and dr_prune_nodes_norec run on ONE concrete DAG of 10 nodes that contains every node kind (section -> create->task{other,end}, section{other,wait}, other, wait) with arbitrary summaries; prune in six concrete (budget, single-worker set) scenarios covering: within budget, root collapsed, both inner nodes collapsed, each inner node alone, already minimum. With symbolic budget/worker sets CBMC's symbolic execution did not finish",
+   "BOUND (kind=bounded): the uncontracted side (c18_dump.c: real dr_pi_dag_enum_edges + helpers of dr_dump.c, real dr_calc_edges of gen_stat.c) runs on ONE concrete position-independent DAG of 14 nodes (root task -> section{create,other,create,wait}, other, section{create,wait}, end; three contracted created tasks with arbitrary edge summaries < 2^40) in the four contraction states of the two sections; resume kind after each wait (wait_cont / end) nondeterministic; one worker, all nodes on worker 0 (the per-worker attribution of edges is not decided); the expected counts come from the accumulate oracle (property statement), not from the code",
+   "STUB (enum_edges jobs): malloc serves the edge array (<= 24 edges) and the counter array (one worker) from two static typed pools, exit() is a stub whose reachability is an obligation failure (no contract instrumentation in these jobs); the node array T is built by the harness in the layout dr_pi_dag_enum_nodes produces (relative offsets), dr_pi_dag_enum_nodes / dr_copy_* themselves are not under contract",
    "ASSUMED CONTRACT: dr_free_dag(g, 0, fl) assigns only g's child list and the free-list head/tail (used by the collapse proof); the `next` links it writes into the freed descendants are not modelled (dead nodes). Its frame is checked on the real body only in the bounded job",
    "ASSUMED CONTRACT: dr_prune_nodes_norec, as seen by summarize, assigns only the root's cur_node_count / child list, the free list and the prune stack; cur_node_count and emptied lists of DESCENDANTS are not modelled there (bounded job checks the real body)",
    "ASSUMED CONTRACT: the debug walker dr_check_node_counts (evaluated only when chk_level != 0) is read-only and returns cur_node_count; in the prune jobs chk_level = 0",
@@ -83,6 +87,6 @@ META = {
    "Leaf: end_t - start.t is the interval length modulo 2^64 (no assumption that the clock is monotone); start.worker == worker is assumed ('by construction' in the source)",
    "summarize job: dr_accumulate_stats is replaced by a contract that leaves arbitrary ghost totals in s->info and touches nothing else (frame proved bounded); the job proves that no policy changes them afterwards and that contraction happens only after accumulation",
    "CBMC does not check the bound of an array that is a struct member reached through a pointer: the out-of-range index logical_node_counts[s->info.kind] (kind = 4/5, array of 4) in dr_accumulate_stats is NOT an obligation (it stays inside the node; the clobbered edge counters are zeroed by the next loop) -- reported as an observation",
-   "Not decided: assignment of tasks to workers (info.worker / min_node_count only steer WHETHER a node is contracted), hooks, t_ready / est / counters_* summaries, dr_dump.c / gen_stat.c / chronological.c (file round trip, C19), the public dr_*__ entry points' list bookkeeping",
+   "Not decided: assignment of tasks to workers (info.worker / min_node_count only steer WHETHER a node is contracted), hooks, t_ready / est / counters_* summaries, the rest of dr_dump.c / gen_stat.c (node enumeration, string table, file round trip: C19; chronological.c; the text of the report), the public dr_*__ entry points' list bookkeeping",
  ],
 }
